@@ -145,7 +145,7 @@ EncSeq(k, ts, i) == IF i > Len(ts) THEN <<>>
 (* primitive).  Map keys must be primitive; a later equal key replaces the earlier one (not generated).   *)
 Fail == [ok |-> FALSE, t |-> <<"L">>, pos |-> 0]
 RECURSIVE Parse(_, _, _), ParseN(_, _, _, _, _, _)
-VarCount(bs, p) ==   \* [ok, n, pos]: the var-uint at p must be minimal
+VarCount(bs, p, cont) ==   \* [ok, n, pos]: the var-uint at p must be minimal; cont = it is the element count of a container
     IF p > Len(bs) THEN [ok |-> FALSE, n |-> 0, pos |-> 0]
     ELSE IF bs[p] < 253 THEN [ok |-> TRUE, n |-> bs[p], pos |-> p + 1]
     ELSE IF bs[p] = 253 THEN
@@ -156,7 +156,13 @@ VarCount(bs, p) ==   \* [ok, n, pos]: the var-uint at p must be minimal
         IF p + 4 > Len(bs) \/ bs[p + 4] >= 128 THEN [ok |-> FALSE, n |-> 0, pos |-> 0]   \* >= 2^31 elements: input too short
         ELSE LET n == bs[p + 1] + 256 * bs[p + 2] + 65536 * bs[p + 3] + 16777216 * bs[p + 4]
              IN IF n <= 65535 THEN [ok |-> FALSE, n |-> 0, pos |-> 0] ELSE [ok |-> TRUE, n |-> n, pos |-> p + 5]
-    ELSE [ok |-> FALSE, n |-> 0, pos |-> 0]                                               \* 8-byte count: irregular or too short
+    ELSE \* 8-byte form
+        IF p + 8 > Len(bs) THEN [ok |-> FALSE, n |-> 0, pos |-> 0]
+        ELSE IF bs[p + 5] = 0 /\ bs[p + 6] = 0 /\ bs[p + 7] = 0 /\ bs[p + 8] = 0 THEN [ok |-> FALSE, n |-> 0, pos |-> 0]   \* irregular
+        \* as coded: the element loop is `for i := 0; i < int(l); i++`; a count >= 2^63 is negative as int, the loop
+        \* does not run and the container is decoded as EMPTY (no allocation depends on the count)
+        ELSE IF cont /\ bs[p + 8] >= 128 THEN [ok |-> TRUE, n |-> 0, pos |-> p + 9]
+        ELSE [ok |-> FALSE, n |-> 0, pos |-> 0]                                           \* more elements/bytes than the input holds
 Parse(bs, p, depth) ==
     IF depth > 1024 \/ p > Len(bs) THEN Fail                    \* `depth > MAX_COUNT` is tested for every value
     ELSE LET tag == bs[p] IN
@@ -164,12 +170,12 @@ Parse(bs, p, depth) ==
           IF p + 1 > Len(bs) \/ bs[p + 1] > 1 THEN Fail
           ELSE [ok |-> TRUE, t |-> <<"X", SubSeq(bs, p, p + 1)>>, pos |-> p + 2]
       ELSE IF tag \in {0, 2} THEN                                \* byte array / integer: var-bytes
-          LET c == VarCount(bs, p + 1) IN
+          LET c == VarCount(bs, p + 1, FALSE) IN
           IF ~c.ok \/ c.n > Len(bs) - c.pos + 1 \/ (tag = 2 /\ c.n > 33) THEN Fail
           ELSE IF tag = 2 /\ c.n = 1 /\ bs[c.pos] = 1 THEN [ok |-> TRUE, t |-> <<"L">>, pos |-> c.pos + 1]
           ELSE [ok |-> TRUE, t |-> <<"X", SubSeq(bs, p, c.pos + c.n - 1)>>, pos |-> c.pos + c.n]
       ELSE IF tag \in {128, 129, 130} THEN
-          LET c == VarCount(bs, p + 1) IN
+          LET c == VarCount(bs, p + 1, TRUE) IN
           IF ~c.ok THEN Fail
           ELSE ParseN(bs, c.pos, c.n, IF tag = 128 THEN "arr" ELSE IF tag = 129 THEN "str" ELSE "map", <<>>, depth)
       ELSE Fail
